@@ -4,6 +4,7 @@ CONSTANTS
   NUin = 6
   NUout = 6
   Diag = 0
+  Part = 0
   Profile = "sim"
 INIT Init
 NEXT Next
